@@ -242,6 +242,24 @@ fn leaf_ok(got: &[Ph], exp: &[Ph]) -> bool {
     gs == es && gm.windows(2).all(|w| w[0].freq >= w[1].freq)
 }
 
+/// the order in which `Trie::entries()` must visit the keys (C11 `entries_order` / `Cli.trieOrder`): `sorted` =
+/// the keys in lexicographic order of their syllable codes with a prefix before its extensions; cut into the
+/// maximal runs in which every key is a prefix of the next one; every run reversed
+fn entries_key_order(sorted: Vec<Vec<u16>>) -> Vec<Vec<u16>> {
+    let mut out: Vec<Vec<u16>> = vec![];
+    let mut run: Vec<Vec<u16>> = vec![];
+    for k in sorted {
+        if let Some(last) = run.last() {
+            if !k.starts_with(last) {
+                out.extend(run.drain(..).rev());
+            }
+        }
+        run.push(k);
+    }
+    out.extend(run.drain(..).rev());
+    out
+}
+
 /// does `got` equal the concatenation of the groups, each in its documented order?
 fn matches_groups(got: &[Ph], groups: &[&Vec<Ph>]) -> bool {
     let mut pos = 0;
@@ -928,6 +946,8 @@ fn model_write(cases: &[Case]) -> Option<Vec<Option<Vec<u8>>>> {
 struct Stats {
     files: u64,
     entries: u64,
+    entries_order_checked: u64,
+    entries_order_with_chain: u64,
     lookups_hit: u64,
     lookups_miss: u64,
     fuzzy: u64,
@@ -1204,6 +1224,38 @@ fn check_reader(out: &mut Out, st: &mut Stats, rng: &mut Rng, case: &Case, bytes
                 }
                 out.rec(&s);
             }
+            // the ORDER (C11 `entries_order`): the keys sorted lexicographically by syllable code, a prefix first
+            // (= the order of this BTreeMap), cut into the maximal chains "each key a prefix of the next", every
+            // chain reversed (the iterator descends along first children and pops its results deepest first);
+            // under each key the leaf in the documented order
+            {
+                let order = entries_key_order(rm.keys().cloned().collect());
+                let got_keys: Vec<&Vec<u16>> = {
+                    let mut v: Vec<&Vec<u16>> = vec![];
+                    for (k, _) in &es {
+                        if v.last().map_or(true, |l| *l != k) {
+                            v.push(k);
+                        }
+                    }
+                    v
+                };
+                st.entries_order_checked += 1;
+                if order.iter().zip(order.iter().skip(1)).any(|(a, b)| b.len() < a.len() && a.starts_with(b)) {
+                    st.entries_order_with_chain += 1;
+                }
+                if got_keys.len() != order.len() || got_keys.iter().zip(order.iter()).any(|(a, b)| *a != b) {
+                    let at = got_keys.iter().zip(order.iter()).position(|(a, b)| *a != b).unwrap_or(order.len().min(got_keys.len()));
+                    fail(out, st, &format!("entries() visits the keys in the order {} but the depth-first order (sorted keys, prefix chains deepest first) is {} — first difference at position {} ({})",
+                        got_keys.iter().map(|k| key_s(k)).collect::<Vec<_>>().join(" "),
+                        order.iter().map(|k| key_s(k)).collect::<Vec<_>>().join(" "), at, who), case);
+                } else {
+                    let phs: Vec<Ph> = es.iter().map(|(_, p)| p.clone()).collect();
+                    let groups: Vec<&Vec<Ph>> = order.iter().map(|k| &rm[k]).collect();
+                    if !matches_groups(&phs, &groups) {
+                        fail(out, st, &format!("entries() does not list every leaf in its documented order ({})", who), case);
+                    }
+                }
+            }
             let mut got: Vec<(Vec<u16>, Ph)> = es;
             let mut exp: Vec<(Vec<u16>, Ph)> =
                 rm.iter().flat_map(|(k, v)| v.iter().map(move |p| (k.clone(), p.clone()))).collect();
@@ -1384,7 +1436,7 @@ fn main() {
     let thorough = tier_is_thorough();
     let mut rng = Rng::new(seed_from_env());
     let mut st = Stats {
-        files: 0, entries: 0, lookups_hit: 0, lookups_miss: 0, fuzzy: 0, fuzzy_nonempty: 0, fuzzy_multi_key: 0,
+        files: 0, entries: 0, entries_order_checked: 0, entries_order_with_chain: 0, lookups_hit: 0, lookups_miss: 0, fuzzy: 0, fuzzy_nonempty: 0, fuzzy_multi_key: 0,
         reinserts: 0, empty_key: 0, prefix_keys: 0, mixed_leaves: 0, max_syllables: 0, bytes_max: 0, with_ts: 0,
         four_byte: 0, max_child_len: 0, max_leaf_bytes: 0, max_records: 0, max_data_begin: 0, big_leaves: 0, key_depth_hist: [0; 5], first_n: 0, first_n_cut: 0, first_phrase: 0, oracle_fail: 0,
     };
@@ -1635,6 +1687,8 @@ fn main() {
     out.stat("files_with_another_valid_node_syllable_opened", tamper_valid_opened);
     out.stat("files", st.files);
     out.stat("entries_inserted", st.entries);
+    out.stat("entries_order_checked_files", st.entries_order_checked);
+    out.stat("entries_order_files_with_a_prefix_chain", st.entries_order_with_chain);
     out.stat("reinserted_phrases", st.reinserts);
     out.stat("files_with_empty_key", st.empty_key);
     out.stat("keys_that_prefix_other_keys", st.prefix_keys);
